@@ -231,6 +231,14 @@ theorem double_buffer_bound (c : Cfg) (offsets : List Nat) (out : Out) (h : enco
     ∀ i, dmaSum (out.rawRanges.filter (fun r => r.slice = i)) ≤ getDbs out.dbs i :=
   (encodeTensor_facts c offsets out h).dbs
 
+/-- The same in the Spec's terms (ranges selected by their key's depth offset): `DbsOk`. -/
+theorem double_buffer_spec (c : Cfg) (offsets : List Nat) (out : Out) (hv : ValidReq (reqOf c offsets))
+    (h : encodeTensor c offsets = .ok out) : DbsOk (reqOf c offsets) (artefactOf c out) := by
+  have hf := encodeTensor_facts c offsets out h
+  have : artefactOf c out = rawArtefactOf c out := by
+    unfold artefactOf rawArtefactOf; rw [ranges_eq_raw c offsets out hv.2.2.2.2.2 hf]
+  rw [this]; exact dbs_ok c offsets out hv hf
+
 /-- Two buffers of the recorded sizes hold every slice (slice `i` goes to buffer `i mod 2`) … -/
 theorem double_buffer_holds (c : Cfg) (offsets : List Nat) (out : Out) (h : encodeTensor c offsets = .ok out) (i : Nat) :
     dmaSum (out.rawRanges.filter (fun r => r.slice = i)) ≤ [out.dbs.1, out.dbs.2].getD (i % 2) 0 := by
@@ -249,6 +257,21 @@ theorem single_buffer_witness :
     (encodeTensor unevenCfg [0, 1, 3]).toOption.map (fun out => out.dbs) = some (32, 64) ∧
     ¬ BuffersOk [32] [32, 64] ∧ BuffersOk [32, 64] [32, 64] := by
   decide +kernel
+
+/-- **Layout part of C08, assembled**: for every request in the Spec's quantifier with regular slices
+    and one bias / scale entry per channel, every encoder, the tensor the model assembles satisfies
+    the whole executable layout Spec (`LayoutOk` = keys ∧ alignment ∧ order/disjointness ∧ record count ∧
+    double-buffer bound) — the same checker the harness applies to the implementation's tensors. -/
+theorem layout_ok (c : Cfg) (offsets : List Nat) (out : Out)
+    (hv : ValidReq (reqOf c offsets)) (hbl : c.biases.length = c.fullDepth) (hsl : c.scales.length = c.fullDepth)
+    (hreg : RegularSlices (reqOf c offsets)) (h : encodeTensor c offsets = .ok out) :
+    LayoutOk (reqOf c offsets) (artefactOf c out) := by
+  obtain ⟨h1, h2, h3⟩ := ranges_disjoint_ordered_aligned c offsets out h
+  have hart := h3 hv.2.2.2.2.2
+  refine ⟨keys_exactly_expected c offsets out hv h, ?_, ?_, (scale_count_partial c offsets out hv hbl hsl hreg h).1,
+    double_buffer_spec c offsets out hv h⟩
+  · rw [hart]; exact h1
+  · rw [hart]; exact h2
 
 /-! ## 6. address ranges handed to the command stream generator -/
 
